@@ -187,17 +187,35 @@ def _gc(root, keep, protect):
             shutil.rmtree(os.path.join(root, x), ignore_errors=True)
 
 
-def extract_scratch(repo_dir, profile="dev"):
+def worker_target(i):
+    """Private copy of the dependency target dir for parallel scratch extractions."""
+    base = os.path.join(CACHE, "target")
+    t = os.path.join(CACHE, "target_w%d" % i)
+    if not os.path.isdir(t):
+        tmp = t + ".tmp.%d" % os.getpid()
+        shutil.rmtree(tmp, ignore_errors=True)
+        if os.path.isdir(base):
+            subprocess.run(["cp", "-a", base, tmp], check=True)
+        else:
+            os.makedirs(tmp)
+        try:
+            os.rename(tmp, t)
+        except OSError:
+            shutil.rmtree(tmp, ignore_errors=True)
+    return t
+
+
+def extract_scratch(repo_dir, profile="dev", target=None):
     """Extraction for a scratch copy (variant kits): separate facts dir under the scratch tree,
     shares the dependency target dir (members are rebuilt anyway)."""
     out = os.path.join(repo_dir, "_facts")
     shutil.rmtree(out, ignore_errors=True)
     os.makedirs(out)
-    tgt = os.environ.get("WCX_TARGET")
+    tgt = target or os.environ.get("WCX_TARGET")
     lock = open((tgt + ".lock") if tgt else os.path.join(CACHE, "extract.lock"), "w")
     fcntl.flock(lock, fcntl.LOCK_EX)
     try:
-        _run_extraction(profile, out, repo_dir)
+        _run_extraction(profile, out, repo_dir, target=tgt)
         _verify_units(out, profile)
     finally:
         fcntl.flock(lock, fcntl.LOCK_UN)
